@@ -194,12 +194,12 @@ PROPS["C18"] = dict(
 PROPS["C20"] = dict(
     modules=["Proofs.C20"],
     theorems=["Goflow.C20.send_preserves", "Goflow.C20.close_flushes_before_stop", "Goflow.C20.all_delivered",
-              "Goflow.C20.equal_keys_same_partition"],
+              "Goflow.C20.equal_keys_same_partition", "Goflow.C20.producer_settings_match"],
     generators=[dict(name="C20", quick=8, thorough=80, subseeds=4)],
     harness=["impl"],
     count_all=True,
     watchdog_ms=60000,
-    level_text="PARTIAL by a wide margin: theorems cover the 30-line adapter (topic/key/value unchanged and in order; producer.Close precedes the stop of the error forwarder, as regenerated from the source) and the consequences of a stated contract of sarama's AsyncProducer; delivery, retries and the error stream live in sarama's runtime and are exercised against an in-process mock broker (batches of 1..2000, flush settings, hashing on/off, produce-error and broker-closed fault scripts), not proved.",
+    level_text="PARTIAL by a wide margin: theorems cover the 30-line adapter (topic/key/value unchanged and in order; producer.Close precedes the stop of the error forwarder, as regenerated from the source; producer_settings_match: every assignment of a sarama producer setting in Init with its conditions, regenerated — error stream on, size limit and flush threshold separate flags, hash partitioner exactly under the hashing flag) and the consequences of a stated contract of sarama's AsyncProducer; delivery, retries and the error stream live in sarama's runtime and are exercised against an in-process mock broker (batches of 1..2000, flush settings, hashing on/off, produce-error and broker-closed fault scripts), not proved.",
     assumptions=["sarama AsyncProducer contract (Goflow.Conc.KafkaAdapter.Contract): every message accepted on Input() before Close is delivered exactly once unchanged when Close returns; HashPartitioner is a function of the key bytes",
                  "the mock broker speaks the Kafka 0.11 produce protocol (transport.kafka.version=0.11.0.0 in the harness)"],
 )
